@@ -4,8 +4,8 @@ from trees import *  # noqa
 import remerkleable.tree as rtree
 from remerkleable.tree import get_depth
 
-THEOREMS = ["C19_setter_allocates_only", "C19_setter_sharing", "C19_setter_refines", "C19_cached_free", "C19_idle"]
-PARTIAL = ["C19_view_ops (the compositions used by set / append / pop / bit ops / field set) and the exact cost formula of merkle_root (= number of reachable uncached pairs) are not separate theorems: view-level sharing and the 2*depth+3+|new value| hash bound are checked model-free by the correspondence"]
+THEOREMS = ["C19_setter_allocates_only", "C19_setter_sharing", "C19_setter_refines", "C19_cached_free", "C19_idle", "C19_potential", "C19_write_cost", "C19_rebind_cost", "C19_rehash_bound", "C19_nothing_to_hash"]
+PARTIAL = ["heap model: a write allocates only, shares every off-path child, refines the pure write; hashes + (uncached pair objects) is invariant under merkle_root() (C19_potential), a write adds one uncached pair per path step (two where a zero summary is expanded), so the next root costs at most what was unhashed + the changed path (C19_rehash_bound) and nothing when nothing is unhashed (C19_nothing_to_hash). View operations are compositions of these writes (1-3 setter calls + rebind_right), so the bounds add up; that the Python view methods perform exactly these compositions, and object identity of off-path subtrees at view level, are checked model-free by the correspondence (parallel identity walk, hash counter)"]
 COQ_IMPORTS = ["RMR.RunC19"]
 COQ_FN = "RunC19.run"
 COQ_CASE_TY = "RunC19.case"
